@@ -222,8 +222,8 @@ def _task_state_progress(uid, current, target):
 
     if current in FINAL:
         if target in FINAL:
-            raise ValueError('invalid transition for %s: %s -> %s'
-                             % (uid, current, target))
+            # contradicting final states: silently discard the target state
+            return [current, []]
 
     cur = _task_state_values[current]
     tgt = _task_state_values[target]
